@@ -413,11 +413,12 @@ impl PublishBuilder {
         if tx.is_canceled() {
             Err(SendPacketError::StreamingCancelled)
         } else {
+            // the stream may start only if the publish header has been written
             let rx =
-                self.shared.wait_publish_response(idx, AckType::Publish, self.packet, chunk);
+                self.shared.wait_publish_response(idx, AckType::Publish, self.packet, chunk)?;
             let _ = tx.send(());
 
-            rx?.await.map(Ack::publish).map_err(|_| SendPacketError::Disconnected)
+            rx.await.map(Ack::publish).map_err(|_| SendPacketError::Disconnected)
         }
     }
 
